@@ -77,6 +77,8 @@ pub use db::{
     RepairSession, StorageBackend, TableDefinition, TableHandle, UntypedMultimapTableHandle,
     UntypedTableHandle,
 };
+#[cfg(redb_verif)]
+pub use db::{VerifMemSnapshot, VerifTrackerSnapshot};
 pub use error::{
     CommitError, CompactionError, DatabaseError, Error, SavepointError, SetDurabilityError,
     StorageError, TableError, TransactionError,
